@@ -58,8 +58,10 @@ func (ex *Exec) mapLenSpec(st *State, m Term) Value {
 }
 
 func (ex *Exec) mapGetSpec(st *State, m Term, k Term) Value {
+	// Go semantics: the zero value when the key is absent (or the map is nil)
 	mc := ex.mapCompsOf(m.T)
-	return Term{S: sx("select", sx("select", ex.mapHeap(st, mc.val), m.S), k.S), T: mc.vt}
+	has := sAnd(sNot(sEq(m.S, "0")), sx("select", sx("select", ex.mapHeap(st, mc.has), m.S), k.S))
+	return Term{S: sIte(has, sx("select", sx("select", ex.mapHeap(st, mc.val), m.S), k.S), ex.vc.tc.zero(mc.vt)), T: mc.vt}
 }
 
 func (ex *Exec) mapHasSpec(st *State, m Term, k Term) string {
